@@ -590,6 +590,28 @@ theorem C15_record_accessed (fs : FS) (root p rel : Path) (inv : List Row) (t : 
     unfold setAtime
     exact List.mem_map.mpr ⟨x, hx, by rw [if_neg hxr]⟩
 
+/-- A notification for a path under the root with a time after the epoch is exactly one `Note` applied to
+the table (the key is `relUnder`'s result). -/
+theorem C15_notification_is_note (fs : FS) (root p rel : Path) (inv : List Row) (size : Nat) (t : Int)
+    (hrel : relUnder fs root p = some rel) (ht : 0 ≤ t) :
+    onCreated fs root inv p size t = some (applyNote inv (.created rel size t.toNat)) ∧
+    onAccessed fs root inv p t = some (applyNote inv (.accessed rel t.toNat)) ∧
+    onDeleted fs root inv p = applyNote inv (.deleted rel) := by
+  refine ⟨?_, ?_, ?_⟩
+  · simp only [onCreated, hrel, applyNote]; rw [if_neg (by omega)]
+  · simp only [onAccessed, hrel, applyNote]; rw [if_neg (by omega)]
+  · simp only [onDeleted, hrel, applyNote]
+
+/-- **"Least recently used" is with respect to the reported access history.** For every table and every
+sequence of reports, the access time stored for a key is the time of the last `created`/`accessed` report
+for that key since it was last (re-)created — `lastReport` is the one-cell state machine `created t ↦ some t`,
+`accessed t ↦` (tracked ? `some t` : unchanged), `deleted ↦ none`; a key is in the table iff that machine
+says it is tracked. Together with `C15_exact` / `C15_history_evict`: the rows a pass removes for size are
+those whose *last reported access* is oldest. -/
+theorem C15_atime_is_last_report (rel : Path) (notes : List Note) (inv : List Row) :
+    atimeOf rel (notes.foldl applyNote inv) = lastReport rel (atimeOf rel inv) notes :=
+  atimeOf_foldl rel notes inv
+
 /-! ### The repaired defects as theorems about the pre-fix loop (`…Legacy`) -/
 
 /-- three files `a` (10, oldest), `b` (20), `c` (30, newest) under `/root`, all present on disk -/
@@ -708,3 +730,6 @@ example : HistOk ["root"] 1000 ⟨[(["root"], .dir)], none, none⟩
   · show DirChain _ [] _
     exact dirChain_of_bool _ _ _ (by decide)
   · intro inv h; cases h; decide
+
+example : atimeOf ["a"] ([Note.created ["a"] 10 100, .created ["b"] 5 150, .accessed ["a"] 200, .accessed ["c"] 300,
+    .deleted ["b"]].foldl applyNote []) = some 200 := by decide
